@@ -233,8 +233,8 @@ def run(tier, rep):
     k = 0
     for (t, d, ti, im) in trip:
         for form in (0, 1, 2):
-            if form and ("[" in t or "]" in t):
-                continue
+            if form and ("[" in t or "]" in t or not t.strip()):
+                continue          # a label needs a non-blank character and no unescaped brackets
             for tl in range(len(TAILS)):
                 if form == 0 and tl == 0:
                     continue
